@@ -51,9 +51,19 @@ class C04(RunProp):
     budgets = {"quick": 300, "thorough": 5000}
 
     def cases(self, rng: random.Random, tier: str) -> Iterable[dict]:
+        forced = 4      # loops whose body runs inside a NESTED graph, under budgets at and just below the need — whatever the seed
         while True:
             c = gen.gen_loop(rng, max_n=6 if tier == "quick" else rng.choice([6, 15, 40]), allow_nested_body=True)
             seq = sequential(c["loop"])
+            if forced:
+                if not c["loop"].get("nestedBody") or seq["steps"] < 3 or c["loop"].get("separateEmitter") or c["loop"].get("twoAcc"):
+                    continue
+                forced -= 1
+                for delta in (-1, 0):
+                    for runner in ("sync", "async"):
+                        yield {"program": c["program"], "values": c["values"], "cfg": {"maxIter": max(1, seq["steps"] + delta), "errMode": "continue"}, "runner": runner,
+                               "loop": c["loop"]}
+                continue
             cfgs = [{}]
             if seq["steps"] > 0 and not c["loop"].get("separateEmitter") and not c["loop"].get("twoAcc"):
                 cfgs.append({"maxIter": max(1, seq["steps"] + rng.choice([-2, -1, 0, 0, 1, 5])), "errMode": rng.choice(["raise", "continue"])})
